@@ -684,7 +684,11 @@ def run_entry(ctx, mod, entry, unwind, timeout=600, backend=None, unwindset=None
                 verdicts.append(('inconclusive', desc, 'native build failed: ' + str(e)[:300], rp))
                 continue
             confirmed = False
-            if kind == 'property':
+            if 'stream model expectation' in desc:
+                # the stream model only learns that the text differs from what the harness announced; natively the
+                # harness' own comparison of the real text has to fail on the same inputs
+                confirmed = 'VP_ASSERT_FAIL' in out
+            elif kind == 'property':
                 confirmed = ('VP_ASSERT_FAIL ' + desc) in out
             elif kind == 'unwind':
                 confirmed = (rc == -9)
